@@ -517,7 +517,8 @@ func checkVest(b *Base, c VestCase) (labels map[string]int, vs []Violation) {
 			}
 		}()
 		if berr != "" {
-			return labels, append(vs, viol("C09/block-failed", "block %s failed: %s", tfmt(bt), berr))
+			labels["vest:block-failed(halted)"]++ // block failures are C07's business
+			return labels, vs
 		}
 		s2 := TakeSnap(b, ctx)
 		due := new(big.Int)
